@@ -584,7 +584,7 @@ class C09(verif.Spec):
                    "model reports as out of bounds)",
                    "the caption decoder proper does not touch cc->xds / curr_sp / sub_packet (checked by grep and by "
                    "the correspondence run, which routes caption pairs through the real caption decoder)"]
-    trusted_base = ["translate/gen_xds.py (extents, guards, two control-flow flags; extents cross-checked by the "
+    trusted_base = ["translate/gen_xds.py (extents, guards, subclass -> buffer layout, control-flow flags; extents cross-checked by the "
                     "`extents` op, flags by the corpus replays)",
                     "harness/xds_harness.c incl. the macro that redirects the xds_decoder call to a printing hook",
                     "lib/xds_util.py reference receiver = my reading of EIA-608 XDS packet framing",
